@@ -1,6 +1,6 @@
 (* proofs about JSON/BinnAcc.v (family jbinn, C14, deepening round):
    A. the encoder succeeds exactly on the documents the executable guard accepts (totality + exactness);
-   B. the printer of the binary form writes what C13's value-level model print_jbl writes, hence (one-space indentation)
+   B. the printer of the binary form writes what C13's value-level model print_jbl writes, hence (every flag set)
       what the tree printer writes;
    C. jbl_type / jbl_count / the public iterator / the keyed accessors against the value of the document. *)
 Require Import ZArith List Bool Lia Btauto. Import ListNotations.
